@@ -1,4 +1,5 @@
 pub mod c01;
+pub mod c02;
 pub mod c03;
 pub mod c04;
 pub mod c05;
@@ -22,6 +23,7 @@ use crate::Ctx;
 pub fn run(ctx: &Ctx) -> i32 {
     match ctx.id.as_str() {
         "C01" => c01::run(ctx),
+        "C02" => c02::run(ctx),
         "C03" => c03::run(ctx),
         "C04" => c04::run(ctx),
         "C05" => c05::run(ctx),
@@ -49,6 +51,7 @@ pub fn run(ctx: &Ctx) -> i32 {
 pub fn replay(id: &str, payload: &serde_json::Value) -> bool {
     match id {
         "C01" => c01::replay(payload),
+        "C02" => c02::replay(payload),
         "C03" => c03::replay(payload),
         "C04" => c04::replay(payload),
         "C05" => c05::replay(payload),
